@@ -129,7 +129,7 @@ fn mutate(text: &str, t: &mut Tape) -> (String, &'static str) {
     let mut last = "none";
     for _ in 0..n_edits {
         let li = t.below(lines.len() as u32) as usize;
-        let kind = t.below(12);
+        let kind = t.below(14);
         last = match kind {
             0 => {
                 lines.remove(li);
@@ -219,13 +219,79 @@ fn mutate(text: &str, t: &mut Tape) -> (String, &'static str) {
                 lines[li].push_str(NUMBERS[t.below(NUMBERS.len() as u32) as usize]);
                 "append-token"
             }
-            _ => {
+            11 => {
                 // move a line to the front (use before definition)
                 let l = lines.remove(li);
                 lines.insert(0, l);
                 "move-to-front"
             }
+            _ => {
+                // character-level edit of one token, half of the time of the value of a constant line
+                let consts: Vec<usize> = (0..lines.len())
+                    .filter(|i| matches!(lines[*i].split_whitespace().nth(1), Some("const" | "constd" | "consth")))
+                    .collect();
+                let li = if !consts.is_empty() && t.flag() { consts[t.below(consts.len() as u32) as usize] } else { li };
+                let mut toks: Vec<String> = lines[li].split_whitespace().map(|s| s.to_string()).collect();
+                if toks.is_empty() {
+                    continue;
+                }
+                let is_const = matches!(toks.get(1).map(|s| s.as_str()), Some("const" | "constd" | "consth")) && toks.len() >= 4;
+                let ti = if is_const && t.chance(200) { 3 } else { t.below(toks.len() as u32) as usize };
+                let mut cs: Vec<char> = toks[ti].chars().collect();
+                match t.below(8) {
+                    0 => cs.insert(0, '+'),
+                    1 => cs.insert(0, '-'),
+                    2 => cs[0] = '+',
+                    3 => cs[0] = '-',
+                    4 => {
+                        let k = t.below(cs.len() as u32) as usize;
+                        cs.remove(k);
+                    }
+                    5 => {
+                        let k = t.below(cs.len() as u32) as usize;
+                        let c = cs[k];
+                        cs.insert(k, c);
+                    }
+                    6 => {
+                        let k = t.below(cs.len() as u32 + 1) as usize;
+                        cs.insert(k, ['0', '1', '9', 'f', 'F', '_'][t.below(6) as usize]);
+                    }
+                    _ => {
+                        let k = t.below(cs.len() as u32) as usize;
+                        cs[k] = ['x', '2', 'g', '+', '-', ' '][t.below(6) as usize];
+                    }
+                }
+                toks[ti] = cs.into_iter().collect();
+                lines[li] = toks.join(" ");
+                "edit-characters"
+            }
         };
+    }
+    // probes: extra output lines on a few node lines, so that the type of any node (not only of those the
+    // file happens to expose) is compared with the sort its line declares
+    if t.chance(100) {
+        let ids: Vec<String> = lines
+            .iter()
+            .filter_map(|l| {
+                let mut it = l.split_whitespace();
+                let id = it.next()?;
+                let op = it.next()?;
+                if id.parse::<u64>().is_ok()
+                    && !["sort", "output", "bad", "constraint", "fair", "justice", "init", "next"].contains(&op)
+                {
+                    Some(id.to_string())
+                } else {
+                    None
+                }
+            })
+            .collect();
+        let max_id = lines.iter().filter_map(|l| l.split_whitespace().next()?.parse::<u64>().ok()).max().unwrap_or(0);
+        if !ids.is_empty() && max_id < u64::MAX - 8 {
+            for k in 0..(1 + t.below(3)) as u64 {
+                let id = &ids[t.below(ids.len() as u32) as usize];
+                lines.push(format!("{} output {}", max_id + 1 + k, id));
+            }
+        }
     }
     (lines.join("\n") + "\n", last)
 }
@@ -263,11 +329,71 @@ fn crashing_op(text: &str) -> Option<(String, PanicInfo, String)> {
     None
 }
 
+/// The type every `output` line of the text should have, from the sort the referenced line declares
+/// (tokenised like the reader: blanks and tabs, `;` starts a comment). None when the text is not plain
+/// enough to tell (an id defined twice, an output that refers to something other than a node line).
+pub fn declared_output_types(text: &str) -> Option<Vec<Type>> {
+    use std::collections::HashMap;
+    let mut def: HashMap<&str, Vec<&str>> = HashMap::new();
+    let mut outputs: Vec<&str> = vec![];
+    for line in text.lines() {
+        let line = line.split(';').next().unwrap_or("");
+        let toks: Vec<&str> = line.split([' ', '\t']).filter(|t| !t.is_empty()).collect();
+        if toks.len() < 2 {
+            continue;
+        }
+        if toks[1] == "output" {
+            outputs.push(toks.get(2)?);
+        }
+        if def.insert(toks[0], toks.clone()).is_some() {
+            return None;
+        }
+    }
+    let width = |sid: &str| -> Option<u32> {
+        let l = def.get(sid)?;
+        if l.len() >= 4 && l[1] == "sort" && l[2] == "bitvec" { l[3].parse().ok() } else { None }
+    };
+    let mut out = vec![];
+    for r in outputs {
+        let id = r.strip_prefix('-').unwrap_or(r);
+        let l = def.get(id)?;
+        if ["sort", "output", "bad", "constraint", "fair", "justice", "init", "next"].contains(&l[1]) {
+            return None;
+        }
+        let sort = def.get(*l.get(2)?)?;
+        if sort.len() >= 4 && sort[1] == "sort" && sort[2] == "bitvec" {
+            out.push(Type::BV(sort[3].parse().ok()?));
+        } else if sort.len() >= 5 && sort[1] == "sort" && sort[2] == "array" {
+            out.push(Type::Array(patronus::expr::ArrayType { index_width: width(sort[3])?, data_width: width(sort[4])? }));
+        } else {
+            return None;
+        }
+    }
+    Some(out)
+}
+
 pub fn judge_text(text: &str, rec: &mut Recorder) -> Result<&'static str, Failure> {
     match parse_quiet(text) {
         Ok(None) => Ok("rejected"),
         Ok(Some((ctx, sys))) => match deep_check(&ctx, &sys) {
-            Ok(()) => Ok("accepted"),
+            Ok(()) => {
+                // outputs have the width that the line they refer to declares
+                if let Some(want) = declared_output_types(text) {
+                    if want.len() == sys.outputs.len() {
+                        rec.label("output-widths-compared-with-the-text");
+                        for (k, (w, o)) in want.iter().zip(sys.outputs.iter()).enumerate() {
+                            let got = o.expr.get_type(&ctx);
+                            if got != *w {
+                                return Err(Failure::new(
+                                    "btor2-robust/accepted-ill-typed/output-type",
+                                    format!("output {} has type {:?} but the line it refers to declares {:?}\n{}", k, got, w, text),
+                                ));
+                            }
+                        }
+                    }
+                }
+                Ok("accepted")
+            }
             Err((kind, msg)) => Err(Failure::new(
                 format!("btor2-robust/accepted-ill-typed/{}", kind),
                 format!("{}\n{}", msg, text),
@@ -311,7 +437,7 @@ impl Prop for C18 {
         judge_text(text, rec).map(|_| ())
     }
     fn rule(&self) -> String {
-        "valid btor2 texts (grammar-generated files and the shipped files under inputs/ below 6 kB) with 1-3 line/token level edits (delete/duplicate/swap/move lines, replace a token by a boundary number, a keyword or another token, negate/perturb numbers, drop/append tokens, inject unicode/control characters/comment starts, truncate a line) and grammar-generated ill-sorted variants; parse_str runs under catch_unwind with a panic hook. Allowed: rejection; a system passing the deep check (every reachable node type-checks, init/next have the state's type, every symbol used is a declared input/state, outputs/bads/constraints are bit-vectors); a panic whose message names a documented not-yet-supported operator. Non-trivial: text that tokenises into >= 3 well-formed lines and differs from every corpus file; distinct by hash of the text.".into()
+        "valid btor2 texts (grammar-generated files and the shipped files under inputs/ below 6 kB) with 1-3 line/token level edits (delete/duplicate/swap/move lines, replace a token by a boundary number, a keyword or another token, negate/perturb numbers, drop/append tokens, inject unicode/control characters/comment starts, truncate a line, edit single characters of a token - sign prefixes, dropped or doubled digits - preferably of a constant's value; appended probe outputs on node lines) and grammar-generated ill-sorted variants; parse_str runs under catch_unwind with a panic hook. Allowed: rejection; a system passing the deep check (every reachable node type-checks, init/next have the state's type, every symbol used is a declared input/state, bads/constraints are Boolean, every output has the type that the line it refers to declares in the text); a panic whose message names a documented not-yet-supported operator. Non-trivial: text that tokenises into >= 3 well-formed lines and differs from every corpus file; distinct by hash of the text.".into()
     }
     fn budget(&self, tier: Tier) -> Budget {
         match tier {
